@@ -14,7 +14,7 @@ for l in out.splitlines():
     if not m or m.group(2) == "SKIP":
         continue
     name, fire, err = m.group(1), m.group(3), m.group(4)
-    if name in SILENT:
+    if name in SILENT or name.startswith("benign_"):
         exp[name] = {"silent": True}
     elif fire != "-" and err == "-":
         exp[name] = {"fire": fire.split(",")}
